@@ -26,6 +26,7 @@ type c08Case struct {
 	name string
 	pos  string
 	mk   func(w *fix.World) pb.Transaction
+	mk2  func(w *fix.World) pb.Transaction // pos "pair": a second malformed transaction in the same block
 }
 
 func resign(tx *pb.BxhTransaction, k crypto.PrivateKey) *pb.BxhTransaction {
@@ -269,6 +270,25 @@ func c08Cases() []c08Case {
 			}
 		}
 	}
+	// two malformed transactions in ONE block: all ordered pairs over a representative menu
+	// (the per-block machinery - signature goroutines, proof groups, invalid-tx map - is
+	// shared by the transactions of a block)
+	menu := []string{"transfer/signature-garbage", "transfer/signature-empty", "bvm-vote/signature-garbage", "ibtp-request/signature-empty",
+		"transfer/to-nil", "transfer/payload-one-byte", "transfer/amount-garbage", "ibtp-request/extra-garbage", "ibtp-request/extra-nil",
+		"ibtp-receipt/payload-truncated-to-0", "xvm-deploy/payload-one-byte", "bvm-vote/typ-unknown"}
+	byName := map[string]func(w *fix.World) pb.Transaction{}
+	for _, k := range out {
+		byName[k.name] = k.mk
+	}
+	for _, a := range menu {
+		for _, b := range menu {
+			ma, mb := byName[a], byName[b]
+			if ma == nil || mb == nil {
+				panic("c08: pair menu names a case that does not exist: " + a + " / " + b)
+			}
+			out = append(out, c08Case{name: a + " + " + b, pos: "pair", mk: ma, mk2: mb})
+		}
+	}
 	return out
 }
 
@@ -344,6 +364,9 @@ func c08Run(c *mc.Ctx, k c08Case) {
 	if k.pos == "last" {
 		txs = []pb.Transaction{v1, v2, tx}
 	}
+	if k.pos == "pair" {
+		txs = []pb.Transaction{tx, v1, k.mk2(w), v2}
+	}
 	name := k.name + " / " + k.pos
 	rep := map[string]interface{}{"engine": "sharded.c08", "desc": name}
 	h0 := w.R.L.GetChainMeta().Height
@@ -364,12 +387,15 @@ func c08Run(c *mc.Ctx, k c08Case) {
 		if k.pos == "last" {
 			vi = []int{0, 1}
 		}
+		if k.pos == "pair" {
+			vi = []int{1, 3}
+		}
 		for _, i := range vi {
 			if !res.Receipts[i].IsSuccess() {
 				c.Report("C08|valid-neighbour-failed", fmt.Sprintf("%s: the valid transaction at position %d failed: %s", name, i, trunc(string(res.Receipts[i].Ret))), rep)
 			}
 		}
-		if res.Receipts[map[string]int{"first": 0, "last": 2}[k.pos]].IsSuccess() {
+		if res.Receipts[map[string]int{"first": 0, "last": 2, "pair": 0}[k.pos]].IsSuccess() {
 			c.Add("mutants_accepted", 1)
 		}
 	}
